@@ -5,10 +5,33 @@
                                                            -> OK / MISMATCH ... (co-simulation of notify_prog)
        receivers: comma separated, "-" when empty; items: one per receiver, separated by '/', bytes comma separated
      progv ... (sc_notify_payloadv for pcx / rsx), see below
+     cfg <thr0> <P> <me> | <ops>                           -> what the state model of the notify object (C01/Reconfig.v) shows after
+                                                              the history <ops> on a fresh object: type thr x y z ctx
+       ops: T t | W a b c | R n | E n | S k | N  (set_type, set_widths, set_num_ranges, set_eager_threshold, set_callback, new)
+     hprog <thr0> <P> <me> <sorted> <haspay> <sz> <receivers> <items> <extra> <supers> OPS <ops> | <events>
+                                                           -> co-simulation of the round the model executes after the history
    Integers are hexadecimal, negative with a leading '-'. *)
 let ints s = List.map z_of_hex (words s)
 let show l = if l = [] then "-" else String.concat " " (List.map hex_of_z l)
 let items s = if s = "-" || s = "" then [] else List.map pl_of_string (String.split_on_char '/' s)
+let rec parse_ops (w : string list) : nop list =
+  let z = z_of_hex in
+  match w with
+  | [] -> []
+  | "T" :: t :: r -> OpType (z t) :: parse_ops r
+  | "W" :: a :: b :: c :: r -> OpWidths (z a, z b, z c) :: parse_ops r
+  | "R" :: n :: r -> OpRanges (z n) :: parse_ops r
+  | "E" :: n :: r -> OpThresh (z n) :: parse_ops r
+  | "S" :: k :: r -> OpCallback (z k, z k) :: parse_ops r
+  | "N" :: r -> OpNew :: parse_ops r
+  | x :: _ -> failwith ("bad op " ^ x)
+(* the globals of the harness process: default type pex, default widths 2 2 2, 25 ranges; thr0 = default eager threshold *)
+let env thr0 p me = { e_P = z_of_hex p; e_me = z_of_hex me; e_type_default = z_of_int 3; e_thresh_default = z_of_hex thr0;
+                      e_ntop_default = z_of_int 2; e_nint_default = z_of_int 2; e_nbot_default = z_of_int 2; e_nranges_default = z_of_int 25 }
+let rec split_at_ops (w : string list) (acc : string list) = match w with
+  | [] -> (List.rev acc, [])
+  | "OPS" :: r -> (List.rev acc, r)
+  | x :: r -> split_at_ops r (x :: acc)
 let () = iter_lines (fun line ->
   if String.trim line = "" then () else
   match words line with
@@ -28,6 +51,25 @@ let () = iter_lines (fun line ->
        let pays = if haspay = "1" then Some (items its) else None in
        let prog = notify_prog (nat_of_int (List.length evs + 2)) (z typ) (z p) (z me) (z ntop) (z nint) (z nbot) (sorted = "1") (pl_of_string r) pays (z sz) (eager = "1") extra supers in
        print_endline (try cosim prog evs with e -> "MISMATCH exception " ^ Printexc.to_string e)
+     | _ -> print_endline "BAD_PARAMS")
+  | "cfg" :: _ ->
+    (match String.split_on_char '|' line with
+     | [hd; ops] ->
+       (match words hd with
+        | ["cfg"; thr0; p; me] ->
+          print_endline (try show (obj_obs (obj_run (env thr0 p me) (parse_ops (words ops)))) with e -> "BAD " ^ Printexc.to_string e)
+        | _ -> print_endline "BAD")
+     | _ -> print_endline "BAD")
+  | "hprog" :: _ ->
+    let (ps0, evs) = split_line line in
+    let (ps, ops) = split_at_ops ps0 [] in
+    (match ps with
+     | [_; thr0; p; me; sorted; haspay; sz; r; its; ex; su] ->
+       let pays = if haspay = "1" then Some (items its) else None in
+       print_endline (try
+         let prog = obj_round_hist (nat_of_int (List.length evs + 2)) (env thr0 p me) (parse_ops ops) (sorted = "1") (pl_of_string r) pays (z_of_hex sz)
+                      (pl_of_string ex) (pl_of_string su) in
+         cosim prog evs with e -> "MISMATCH exception " ^ Printexc.to_string e)
      | _ -> print_endline "BAD_PARAMS")
   | "progv" :: _ ->
     (* progv <typ 4|5> <P> <me> <sorted> <msz> <receivers> <lens> <slices separated by '/'> | <events> *)
